@@ -106,6 +106,13 @@ func report(o *checkOpts, prog *Program, results []*UnitResult, genFails map[str
 		if inLedger[ob.Name] || o.updateLedger {
 			viols = append(viols, violation{Obligation: ob.Name, Reason: "obligation no longer discharged: " + ob.Src, Status: ob.Status, Detail: ob.Model})
 		} else {
+			// not in the ledger: a failed proof alone is not a violation - unless its replay family reproduces exactly this clause on the real code
+			if r := resOf[ob]; r != nil && !o.updateLedger {
+				if cr := tryReplay(o, prog, r, ob); cr != nil && cr.Confirmed && cr.Specific {
+					viols = append(viols, violation{Obligation: ob.Name, Reason: "new obligation fails and its replay reproduces the violated clause on the real code: " + ob.Src, Status: ob.Status, Detail: ob.Model})
+					continue
+				}
+			}
 			total--
 			undecided = append(undecided, map[string]any{"obligation": ob.Name, "status": ob.Status, "clause": ob.Src, "at": ob.Pos, "note": "not in the ledger of obligations discharged on the unchanged tree; a failed proof alone is not a violation"})
 		}
@@ -382,6 +389,7 @@ func writeEvidence(o *checkOpts, prog *Program, results []*UnitResult, all []*Ob
 type replayResult struct {
 	Family    string `json:"family"`
 	Confirmed bool   `json:"confirmed"`
+	Specific  bool   `json:"names_this_clause"` // a REPLAY-CONFIRMED line names this obligation's label
 	Scenario  any    `json:"scenario,omitempty"`
 	Output    string `json:"output,omitempty"`
 	Note      string `json:"note,omitempty"`
